@@ -1,7 +1,11 @@
 (* C06 — Proxies relay only to bridges inside their accepted pattern.
-   Statements only; the proofs are in Proofs/NameMatcherProofs.v.
+   Statements only; the proofs are in Proofs/NameMatcherProofs.v, BrokerGateProofs.v, RelayHistoryProofs.v, ProxyRelayProofs.v.
    Models: Model/NameMatcher.v (common/namematcher/matcher.go as written),
-           Model/RelayCheck.v  (broker CheckProxyRelayPattern/ProxyPolls decision; proxy runSession decision).
+           Model/RelayCheck.v  (broker CheckProxyRelayPattern/ProxyPolls decision; proxy runSession decision),
+           Model/BrokerGate.v  (the gate in front of the matching machine; the BrokerContext as ProxyPolls sees it:
+                                request bodies through the wire decoder, counters, matching core, re-installations),
+           Model/ProxyRelay.v  (relay URL string -> check -> string handed to the dialer -> dial target; one
+                                SnowflakeProxy over its sessions).
    Strings are arbitrary [list N] (all byte strings and more); patterns are arbitrary too
    (with/without ^ and $, empty, ^/$ in the middle). *)
 From Coq Require Import List NArith Bool String.
@@ -128,7 +132,7 @@ Proof. vm_compute. repeat split. Qed.
    legacy poll: the presumed pattern) is not judged a superset of the allowed pattern is answered with the
    rejection and changes NOTHING: no entry, no heap membership, no id-map binding exists for it, so by C02
    (clients are only ever stored in entries) no client offer can reach it, in any continuation. *)
-From Snow Require Import Model.Broker Proofs.BrokerProofs Proofs.BrokerGateProofs.
+From Snow Require Import Model.JsonBoundary Model.Messages Model.Broker Model.BrokerGate Proofs.BrokerProofs Proofs.BrokerGateProofs.
 
 Theorem C06_rejected_poll_changes_nothing : forall cfg v s sd n pt cl pat,
   broker_accepts_poll cfg pat = false ->
@@ -244,3 +248,192 @@ Example C06_proxy_history_nonvacuous :
                  (bs "wss://01.snowflake.torproject.net/", Parsed (bs "wss") h)]
   = [DialBrokerURL; Refuse; DialBrokerURL].
 Proof. vm_compute. reflexivity. Qed.
+
+(* ==================================================================================================================
+   The broker and the proxy as state machines with the state the code has (Model/BrokerGate.v, Model/ProxyRelay.v).
+   The correspondence check runs exactly these machines (Run/NameMatcherGate.v ops gate, bseq, sess) against one
+   long-lived BrokerContext / one SnowflakeProxy configured through Start().
+   ================================================================================================================== *)
+From Snow Require Import Model.ProxyRelay Proofs.ProxyRelayProofs.
+
+(* ---- broker: request bytes -> DecodeProxyPollRequestWithRelayPrefix -> CheckProxyRelayPattern -> registration ---- *)
+
+(* The decoder reports a poll as relay-pattern aware exactly when the field is present and not null: the option
+   handed to the gate is the field, whatever Version (or anything else in the request) says ... *)
+Theorem C06_wire_awareness_is_field_presence : forall (v : json) sid ver ty nat n pat q,
+  unmarshal poll_req_schema v = Some [VStr sid; VStr ver; VStr ty; VStr nat; VInt n; VPtr pat] ->
+  decode_proxy_poll v = Ok q -> poll_pattern q = pat.
+Proof. exact poll_pattern_is_field. Qed.
+
+(* ... and the gate's verdict on it is what ProxyPolls computes: CheckProxyRelayPattern(relayPattern, !aware). *)
+Theorem C06_wire_verdict_is_gate : forall (cfg : broker_cfg) (r : poll_req),
+  broker_accepts_poll cfg (poll_pattern r) = check_proxy_relay_pattern cfg (pq_pattern r) (negb (pq_aware r)).
+Proof. exact poll_label_verdict. Qed.
+
+(* INVARIANT: the two patterns of a BrokerContext are written by InstallBridgeListProfile and by no other step
+   (polls of any kind, malformed requests, client offers, answers, timeouts). *)
+Theorem C06_broker_machine_config_invariant : forall v c ev c' r,
+  bstep v c ev = Some (c', r) -> (forall cfg', ev <> B_Install cfg') -> b_cfg c' = b_cfg c.
+Proof. exact bstep_cfg_not_written. Qed.
+
+(* Hence: in any run from any context (counters at any value, any proxies registered, any goroutines in flight),
+   the reply to an event is the function [breply_of] of that event and of the patterns of the latest installation
+   before it — for a poll: BadRequest when the body does not decode, else the verdict of CheckProxyRelayPattern. *)
+Theorem C06_broker_machine_history_independent : forall v c pre ev post c' rs,
+  brun v c (pre ++ ev :: post) = Some (c', rs) ->
+  nth_error rs (List.length pre) = Some (breply_of (bcfg_after (b_cfg c) pre) ev).
+Proof. exact brun_reply_at. Qed.
+
+Theorem C06_broker_machine_state_irrelevant : forall v c1 c2 evs c1' c2' rs1 rs2,
+  b_cfg c1 = b_cfg c2 ->
+  brun v c1 evs = Some (c1', rs1) -> brun v c2 evs = Some (c2', rs2) -> rs1 = rs2.
+Proof. exact brun_state_irrelevant. Qed.
+
+(* A poll that is not admitted (rejected pattern, or malformed) leaves the matching core exactly as it was. *)
+Theorem C06_broker_machine_rejected_changes_nothing : forall v c body c' r,
+  bstep v c (B_Poll body) = Some (c', r) -> r <> PollReply Registered -> b_core c' = b_core c.
+Proof. exact bstep_rejected_changes_nothing. Qed.
+
+(* "... and never gives such a proxy a client": after ANY history on a broker context started without proxies,
+   every entry of the matching core — the only place a client offer is ever put (C02) — was created by a poll
+   that decoded and whose pattern (its own; for a poll without the field, the presumed one) was judged a superset
+   of the allowed pattern under the installation in force when it arrived. *)
+Theorem C06_broker_entries_are_admitted_polls : forall v cfg br evs c' rs,
+  brun v (binit cfg br) evs = Some (c', rs) ->
+  forall e, In e (entries (b_core c')) ->
+  exists pre body post q, evs = pre ++ B_Poll body :: post /\ opt_decode decode_proxy_poll body = Ok q
+    /\ sid_tag (pq_sid q) = e_sid e /\ broker_accepts_poll (bcfg_after cfg pre) (poll_pattern q) = true.
+Proof. exact brun_entries_admitted. Qed.
+
+(* The history-free reading used above (broker_run) is the projection of the machine: its answers are the
+   machine's replies to the polls that decode and to the re-installations. *)
+Theorem C06_broker_machine_projects_to_run : forall v evs c c' rs,
+  brun v c evs = Some (c', rs) ->
+  flat_map abs_reply rs = broker_run (b_cfg c) (flat_map abs_event evs).
+Proof. exact brun_projects_to_broker_run. Qed.
+
+(* ---- proxy: relay URL string -> runSession check -> datachannelHandler -> websocket dialer ---- *)
+
+(* THE DIALLED HOST IS THE CHECKED HOST.  [redial_preserves lib]: what is assumed of net/url (if a string parses and
+   the string printed from that parse, client_ip set, parses again, scheme and host name are the same).  Then, when a
+   session whose poll response carries the non-empty relay URL [raw] reaches the dialer and the dialer connects
+   (ws_dial = DialTo tls h): h is the host name runSession extracted from raw and found in the proxy's pattern, and
+   the connection uses TLS unless non-TLS relays were explicitly allowed. *)
+Theorem C06_proxy_dials_checked_host : forall lib c raw ip t tls h,
+  redial_preserves lib -> raw <> [] ->
+  run_session lib c raw ip = SDial t -> ws_dial lib t = DialTo tls h ->
+  exists sch, ul_parse lib raw = Parsed sch h
+    /\ is_member (new_matcher (pc_pattern c)) h = true
+    /\ (tls = true \/ pc_allow_non_tls c = true)
+    /\ (tls = true <-> sch = WSS).
+Proof. exact session_dials_checked_host. Qed.
+
+(* The string handed to the dialer is printed from the parse of the very string that was checked (no library
+   assumption), or — for an empty relay URL only — from the operator's own RelayURL. *)
+Theorem C06_proxy_dial_string : forall lib c raw ip t,
+  run_session lib c raw ip = SDial t ->
+  (raw <> [] /\ t = ul_redial lib raw ip
+   /\ exists sch h, ul_parse lib raw = Parsed sch h /\ is_member (new_matcher (pc_pattern c)) h = true
+                    /\ (pc_allow_non_tls c = true \/ sch = WSS))
+  \/ (raw = [] /\ t = ul_redial lib (pc_relay_url c) ip).
+Proof. exact session_dial_string. Qed.
+
+Theorem C06_proxy_empty_url_dials_configured : forall lib c ip t,
+  run_session lib c [] ip = SDial t -> t = ul_redial lib (pc_relay_url c) ip.
+Proof. exact session_empty_dials_configured. Qed.
+
+(* The test reads the pattern and the flag; RelayURL only for an empty relay URL; BrokerURL, NATProbeURL, STUNURL and
+   ProxyType never: a broker-supplied URL equal to any configured string is judged like every other URL. *)
+Theorem C06_proxy_session_reads_only_check_fields : forall lib c1 c2 raw ip,
+  pc_pattern c1 = pc_pattern c2 -> pc_allow_non_tls c1 = pc_allow_non_tls c2 ->
+  (raw = [] -> pc_relay_url c1 = pc_relay_url c2) ->
+  run_session lib c1 raw ip = run_session lib c2 raw ip.
+Proof. exact session_reads_only_check_fields. Qed.
+
+(* INVARIANT: no step of the proxy (sessions, NAT re-tests) writes the configuration Start() left. *)
+Theorem C06_proxy_machine_config_invariant : forall lib s ev, ps_conf (fst (pstep lib s ev)) = ps_conf s.
+Proof. exact pstep_conf. Qed.
+
+(* Hence from any state and after any history the outcome of a session is [run_session] of the configuration
+   and that session's relay URL. *)
+Theorem C06_proxy_machine_history_independent : forall lib s pre raw ip post,
+  nth_error (snd (prun lib s (pre ++ P_Session raw ip :: post))) (List.length pre)
+  = Some (Some (run_session lib (ps_conf s) raw ip)).
+Proof. exact prun_outcome_at. Qed.
+
+Theorem C06_proxy_machine_state_irrelevant : forall lib s1 s2 evs,
+  ps_conf s1 = ps_conf s2 -> snd (prun lib s1 evs) = snd (prun lib s2 evs).
+Proof. exact prun_state_irrelevant. Qed.
+
+(* Over the whole life of a proxy: every string it ever hands to the dialer is printed from its own RelayURL, or
+   makes the dialer connect (if at all) to a host inside the proxy's pattern, over TLS unless non-TLS was allowed. *)
+Theorem C06_proxy_life_dials_sound : forall lib c evs t,
+  redial_preserves lib -> In t (ps_dials (fst (prun lib (pinit c) evs))) -> dial_ok lib c t.
+Proof. exact proxy_life_dials_sound. Qed.
+
+Theorem C06_proxy_machine_projects_to_run : forall lib evs s,
+  zip_abs evs (snd (prun lib s evs)) = proxy_run (check_cfg (ps_conf s)) (flat_map (abs_offer lib) evs).
+Proof. exact prun_projects_to_proxy_run. Qed.
+
+(* ---- non-vacuity ---- *)
+
+Definition ex_poll_opt (sid ver : string) (pat : option string) : option json :=
+  Some (JObj ([(bs "Sid", JStr (bs sid)); (bs "Version", JStr (bs ver)); (bs "Type", JStr (bs "standalone"));
+               (bs "NAT", JStr (bs "unknown")); (bs "Clients", JNum (bs "0"))]
+              ++ match pat with Some p => [(bs "AcceptedRelayPattern", JStr (bs p))] | None => [] end)).
+Definition ex_poll (sid ver pat : string) : option json := ex_poll_opt sid ver (Some pat).
+Definition ex_poll0 (sid ver : string) : option json := ex_poll_opt sid ver None.
+
+(* one broker context (allowed: snowflake.torproject.net$, presumed pattern covering it): an explicit pattern that
+   does not cover the allowed one is rejected also when the poll announces version 1.2 or 1.0; a poll without the
+   field is judged by the presumed pattern; a malformed one is a bad request; the rejected polls leave no entry;
+   after the presumed pattern is re-installed to one that does not cover, the poll without the field is rejected *)
+Example C06_broker_machine_nonvacuous :
+  let cfg := mk_broker_cfg (bs "snowflake.torproject.net$") (bs "torproject.net$") in
+  let cfg2 := mk_broker_cfg (bs "snowflake.torproject.net$") (bs "snowflake.bamsoftware.com$") in
+  exists c', brun V1 (binit cfg [(7, 9)])
+    [B_Poll (ex_poll "s1" "1.2" "x.snowflake.torproject.net$"); B_Poll (ex_poll "s2" "1.0" "x.snowflake.torproject.net$");
+     B_Poll (ex_poll0 "s3" "1.2"); B_Poll (ex_poll "s4" "1.0" "net$"); B_Poll (ex_poll "s5" "2.0" "net$");
+     B_Poll None; B_Install cfg2; B_Poll (ex_poll0 "s6" "1.3"); B_Poll (ex_poll "s7" "1.3" "net$")]
+    = Some (c', [PollReply RejectedPattern; PollReply RejectedPattern; PollReply Registered; PollReply Registered;
+                 BadRequest; BadRequest; Installed; PollReply RejectedPattern; PollReply Registered])
+  /\ map e_sid (entries (b_core c')) = [sid_tag (bs "s3"); sid_tag (bs "s4"); sid_tag (bs "s7")]
+  /\ b_metrics c' = mk_bmetrics 4 2 3
+  /\ b_cfg c' = cfg2.
+Proof. eexists. vm_compute. repeat split. Qed.
+
+Example C06_wire_awareness_nonvacuous :
+  exists q, opt_decode decode_proxy_poll (ex_poll "s1" "1.2" "x$") = Ok q /\ poll_pattern q = Some (bs "x$")
+  /\ exists q', opt_decode decode_proxy_poll (ex_poll0 "s1" "1.3") = Ok q' /\ poll_pattern q' = None.
+Proof. eexists. split; [vm_compute; reflexivity|]. split; [reflexivity|]. eexists. split; [vm_compute; reflexivity|reflexivity]. Qed.
+
+(* a library instance that keeps the contract, a proxy configured as Start() leaves it when nothing is given, and a
+   life with: the broker-supplied URL equal to the proxy's own RelayURL (refused: its host is outside the pattern),
+   a good wss URL (dialled, TLS, checked host), the same over ws (refused), the empty URL (own relay dialled) *)
+Definition ex_table : list (bytes * parsed_url) :=
+  [(bs "wss://snowflake.bamsoftware.com/", Parsed (bs "wss") (bs "snowflake.bamsoftware.com"));
+   (redial_token (bs "wss://snowflake.bamsoftware.com/") [], Parsed (bs "wss") (bs "snowflake.bamsoftware.com"));
+   (bs "wss://snowflake.torproject.net/", Parsed (bs "wss") (bs "snowflake.torproject.net"));
+   (redial_token (bs "wss://snowflake.torproject.net/") [], Parsed (bs "wss") (bs "snowflake.torproject.net"));
+   (bs "ws://snowflake.torproject.net/", Parsed (bs "ws") (bs "snowflake.torproject.net"));
+   (redial_token (bs "ws://snowflake.torproject.net/") [], Parsed (bs "ws") (bs "snowflake.torproject.net"));
+   ([], Parsed [] [])].
+Definition ex_conf : proxy_conf :=
+  mk_proxy_conf (bs "wss://snowflake.bamsoftware.com/") (bs "snowflake.torproject.net$") false
+                (bs "https://snowflake-broker.torproject.net/") (bs "https://snowflake-broker.torproject.net:8443/probe")
+                (bs "stun:stun.stunprotocol.org:3478") (bs "standalone").
+
+Example C06_proxy_library_contract_nonvacuous : redial_preserves (table_lib ex_table).
+Proof. apply table_lib_preserves. vm_compute. reflexivity. Qed.
+
+Example C06_proxy_machine_nonvacuous :
+  let lib := table_lib ex_table in
+  let good := bs "wss://snowflake.torproject.net/" in
+  snd (prun lib (pinit ex_conf)
+         [P_Session (pc_relay_url ex_conf) []; P_Session good []; P_NatProbe (bs "restricted");
+          P_Session (bs "ws://snowflake.torproject.net/") []; P_Session [] []; P_Session good []])
+  = [Some SRefused; Some (SDial (redial_token good [])); None; Some SRefused;
+     Some (SDial (redial_token (pc_relay_url ex_conf) [])); Some (SDial (redial_token good []))]
+  /\ ws_dial lib (redial_token good []) = DialTo true (bs "snowflake.torproject.net")
+  /\ good <> [].
+Proof. vm_compute. repeat split. discriminate. Qed.
